@@ -424,9 +424,72 @@ STMT_KINDS = {"{}", "if", "for", "while", "do", "forr", "switch", "case",
               "label", "null", "xs", "expr"}
 
 
+def _atoms(c, acc):
+    k = c.get("k") if isinstance(c, dict) else None
+    if k == "bin" and c.get("op") in ("&&", "||"):
+        _atoms(c["a"][0], acc)
+        _atoms(c["a"][1], acc)
+    elif k == "un" and c.get("op") == "!":
+        _atoms(c["a"][0], acc)
+    elif k is not None:
+        acc.setdefault(show(c), c)
+
+
+def _eval(c, val):
+    k = c.get("k")
+    if k == "bin" and c.get("op") == "&&":
+        return _eval(c["a"][0], val) and _eval(c["a"][1], val)
+    if k == "bin" and c.get("op") == "||":
+        return _eval(c["a"][0], val) or _eval(c["a"][1], val)
+    if k == "un" and c.get("op") == "!":
+        return not _eval(c["a"][0], val)
+    return val[show(c)]
+
+
 def flatten_guards(guards):
-    """expand (cond, pol) guards into atomic facts when unambiguous:
-    (a && b, True) -> a:T, b:T ; (a || b, False) -> a:F, b:F ; !a flips."""
+    """atomic facts entailed by the guards.  Unambiguous cases are expanded
+    syntactically ((a && b, True) -> a, b; (a || b, False) -> !a, !b); when
+    compound guards remain, the atoms (<= 12) are enumerated propositionally
+    so that e.g. !(!R && !I) together with !R entails I."""
+    simple = _flatten_simple(guards)
+    conds = [g for g in guards if g[0] != "case"]
+    compound = False
+    for c, pol in conds:
+        k = c.get("k")
+        if (k == "bin" and c.get("op") == "&&" and not pol) or \
+                (k == "bin" and c.get("op") == "||" and pol) or \
+                (k == "un" and c.get("op") == "!"
+                 and c["a"][0].get("k") == "bin"
+                 and c["a"][0].get("op") in ("&&", "||")):
+            compound = True
+    if not compound:
+        return simple
+    atoms = {}
+    for c, pol in conds:
+        _atoms(c, atoms)
+    keys = sorted(atoms)
+    if len(keys) > 12:
+        return simple
+    models = []
+    for m in range(1 << len(keys)):
+        val = {k: bool(m >> i & 1) for i, k in enumerate(keys)}
+        if all(_eval(c, val) == pol for c, pol in conds):
+            models.append(val)
+    if not models:
+        return simple
+    have = {(show(c), pol) for c, pol in
+            [g for g in simple if g[0] != "case"]}
+    out = list(simple)
+    for k in keys:
+        vals = {m[k] for m in models}
+        if len(vals) == 1:
+            v = vals.pop()
+            if (k, v) not in have:
+                out.append((atoms[k], v))
+    return out
+
+
+def _flatten_simple(guards):
     out = []
 
     def rec(c, pol):
